@@ -143,15 +143,17 @@ class Result:
 def cache_options(cfg):
     from architecture_simulator.uarch.memory.cache import CacheOptions
 
+    # configuration strings arrive from JSON / the UI: equal to "wt", "plru", ... but not the interned literals
+    fresh = lambda t: "".join(list(t))
     if not cfg:
-        return CacheOptions(False, 0, 0, 1, "wb", "lru", 0)
+        return CacheOptions(False, 0, 0, 1, fresh("wb"), fresh("lru"), 0)
     return CacheOptions(
         enable=True,
         num_index_bits=cfg["ib"],
         num_block_bits=cfg["bb"],
         associativity=cfg["assoc"],
-        cache_type="wt" if cfg.get("wt") else "wb",
-        replacement_strategy=cfg.get("policy", "lru"),
+        cache_type=fresh("wt" if cfg.get("wt") else "wb"),
+        replacement_strategy=fresh(cfg.get("policy", "lru")),
         miss_penalty=cfg.get("pen", 0),
     )
 
@@ -160,7 +162,7 @@ def make_riscv(mode="single", hz=True, dcache=None, icache=None):
     from architecture_simulator.simulation.riscv_simulation import RiscvSimulation
 
     return RiscvSimulation(
-        mode="five_stage_pipeline" if mode == "five" else "single_stage_pipeline",
+        mode="".join(list("five_stage_pipeline" if mode == "five" else "single_stage_pipeline")),
         detect_data_hazards=hz,
         data_cache=cache_options(dcache),
         instruction_cache=cache_options(icache),
